@@ -27,6 +27,8 @@ def gen_cfgs(rng, n):
         k = rng.choice([1, 2, 3, 4])
         names = rng.sample(NAMES, k)
         origs = {nm: str(rng.choice([0, 1, 10, 101, -7, 2 ** 31, 2 ** 64 + 3, 12345678901234567890])) for nm in names}
+        if k >= 2 and rng.random() < 0.4:
+            origs[names[1]] = origs[names[0]]          # two streams with one original seed
         listed = [nm for nm in names if rng.random() < 0.5]
         table = {nm: [str(rng.choice([1, 5, 9, 2 ** 40, -3, 77])) for _ in range(3)] for nm in listed}
         if listed and rng.random() < 0.25:
@@ -36,7 +38,12 @@ def gen_cfgs(rng, n):
         cfgs.append({"id": str(i), "u": rng.choice(["simple", "table", "table", "chained", "custom", "shared"]), "names": names, "origs": origs,
                      "table": table, "table2": table2,
                      "rc": rng.choice(["negative", "first", "inside", "last", "beyond", "far", "illtyped", "inside", "last"]),
-                     "bulk": rng.random() < 0.4})
+                     "bulk": rng.random() < 0.4, "again": rng.choice([None, "first", "inside", "last"])})
+        if i % 7 == 3 and k >= 2:
+            # two streams whose correct seeds coincide (one original seed, replication 0) in ONE update_seeds call of the simple updater:
+            # a stream's seed does not depend on which other streams are in the set
+            cfgs[-1].update(u=rng.choice(["simple", "shared"]), bulk=True, rc="first", again=None)
+            cfgs[-1]["origs"][names[1]] = cfgs[-1]["origs"][names[0]]
         if i % 5 == 0 and k >= 3:
             # same listing order in every process: one stream under two names, or a refusal half-way through update_seeds
             c = dict(cfgs[-1], id=f"{i}f", fixed_order=True, bulk=True)
